@@ -43,7 +43,7 @@ Record yfam_c (r : raw) : Prop := mk_yfam_c {
 (* the specification's step items as an explicit list *)
 Lemma yearly_step_items r rl k :
   normalize r = Ok rl -> spec_wf r = true -> r_freq r = YEARLY -> r_bysetpos r = None ->
-  let y := r_y r + k * r_interval r in 2 <= y <= 9999 ->
+  let y := r_y r + k * r_interval r in 1 <= y <= 9999 ->
   step_items r k = filter (inst_le (sp_start r))
     (flat_map (fun o => map (fun t => (o, t)) (period_times r 0))
               (filter (day_ok r) (zrange (jan1 y) (jan1 (y + 1))))).
@@ -67,7 +67,7 @@ Qed.
 Lemma yearly_pass_full_c : forall r rl k month ii cnt out,
   normalize r = Ok rl -> yfam_c r ->
   let y := r_y r + k * r_interval r in
-  2 <= y <= 9999 -> (r_byeaster r = None \/ 1583 <= y <= 4099) ->
+  1 <= y <= 9999 -> (r_byeaster r = None \/ 1583 <= y <= 4098) ->
   rebuild rl ii_init y month = Ok ii ->
   exists ds ds' f out' c1 s1 c1' b1,
     getdayset rl ii y month 1 = Ok (ds, 0, year_len y) /\
@@ -109,8 +109,8 @@ Proof. intros [A B C D E F]. repeat split; assumption. Qed.
 
 Lemma yearly_step_c : forall r rl k cnt s,
   normalize r = Ok rl -> yfam_c r -> at_pass_c r rl k cnt s ->
-  2 <= r_y r + k * r_interval r -> r_y r + (k + 1) * r_interval r <= 9999 ->
-  (r_byeaster r = None \/ (1583 <= r_y r + k * r_interval r /\ r_y r + (k + 1) * r_interval r <= 4099)) ->
+  1 <= r_y r + k * r_interval r -> r_y r + (k + 1) * r_interval r <= 9999 ->
+  (r_byeaster r = None \/ (1583 <= r_y r + k * r_interval r /\ r_y r + (k + 1) * r_interval r <= 4098)) ->
   exists acc' cnt' b, sp_take r (step_items r k) cnt (c_out s) = (acc', cnt', b) /\
     (b = false -> exists s', step rl s = inl s' /\ at_pass_c r rl (k + 1) cnt' s' /\ c_out s' = acc') /\
     (b = true -> exists t, step rl s = inr (acc', t)).
@@ -129,9 +129,9 @@ Proof.
     unfold between in *. lia. }
   destruct Hitv as [Hitv Hwk].
   set (y := r_y r + k * r_interval r) in *.
-  assert (Hy : 2 <= y <= 9999) by nia.
+  assert (Hy : 1 <= y <= 9999) by nia.
   rewrite Ay, Am in Ar.
-  assert (HEy : r_byeaster r = None \/ 1583 <= y <= 4099).
+  assert (HEy : r_byeaster r = None \/ 1583 <= y <= 4098).
   { destruct HE as [HE|HE]; [left; exact HE|right; unfold y; nia]. }
   destruct (yearly_pass_full_c r rl k (r_m r) (c_ii s) cnt (c_out s) HN Y Hy HEy Ar)
     as (ds & ds' & f & out' & c1 & s1 & c1' & b1 & E1 & E2 & E3 & E4 & G2 & G3).
@@ -157,9 +157,9 @@ Proof.
   - intros Hb. destruct s1 as [t|]; [specialize (G3 ltac:(discriminate)); congruence|].
     destruct (G2 eq_refl) as [_ Ec]. subst c1'.
     set (y2 := y + interval rl).
-    assert (Hy2 : 2 <= y2 <= 9999).
+    assert (Hy2 : 1 <= y2 <= 9999).
     { unfold y2. rewrite Ni. replace (r_y r + (k + 1) * r_interval r) with (y + r_interval r) in Hhi by (unfold y; ring). lia. }
-    assert (HE2 : truthy (byeaster rl) = false \/ 1583 <= y2 <= 4099).
+    assert (HE2 : truthy (byeaster rl) = false \/ 1583 <= y2 <= 4098).
     { destruct EC as [[Ea0 T0]|[Ea1 T1]]; [left; exact T0|right].
       destruct HE as [HE|HE]; [congruence|].
       unfold y2. rewrite Ni. replace (r_y r + (k + 1) * r_interval r) with (y + r_interval r) in HE by (unfold y; ring).
@@ -186,8 +186,8 @@ Qed.
 
 Lemma yearly_run_is_spec_c : forall r rl limit n k cnt s,
   normalize r = Ok rl -> yfam_c r -> at_pass_c r rl k cnt s -> 0 <= k ->
-  2 <= r_y r -> r_y r + (k + Z.of_nat n) * r_interval r <= 9999 ->
-  (r_byeaster r = None \/ (1583 <= r_y r /\ r_y r + (k + Z.of_nat n) * r_interval r <= 4099)) ->
+  1 <= r_y r -> r_y r + (k + Z.of_nat n) * r_interval r <= 9999 ->
+  (r_byeaster r = None \/ (1583 <= r_y r /\ r_y r + (k + Z.of_nat n) * r_interval r <= 4098)) ->
   fst (run rl limit n s) = fst (spec_loop r limit n k cnt (c_out s)).
 Proof.
   intros r rl limit n. induction n as [|n IH]; intros k cnt s HN Y A Hk Hlo Hhi HE; cbn [run spec_loop].
@@ -198,7 +198,7 @@ Proof.
     { pose proof HW as HW'. unfold spec_wf in HW'.
       repeat match type of HW' with _ && _ = true =>
         let H := fresh "W" in apply andb_true_iff in HW'; destruct HW' as [HW' H] end. lia. }
-    assert (Hyk : 2 <= r_y r + k * r_interval r) by nia.
+    assert (Hyk : 1 <= r_y r + k * r_interval r) by nia.
     assert (Hyk1 : r_y r + (k + 1) * r_interval r <= 9999) by nia.
     rewrite (step_lo_yearly r k Hfr).
     assert (B : jan1 (r_y r + k * r_interval r) <= max_ord).
@@ -218,7 +218,7 @@ Proof.
       pose proof (step_dead rl s D) as SD. destruct (step rl s) as [s'|[out t]].
       * destruct SD as [E D']. rewrite (run_dead rl limit n s' D'). exact E.
       * exact SD.
-    + assert (HEk : r_byeaster r = None \/ (1583 <= r_y r + k * r_interval r /\ r_y r + (k + 1) * r_interval r <= 4099)).
+    + assert (HEk : r_byeaster r = None \/ (1583 <= r_y r + k * r_interval r /\ r_y r + (k + 1) * r_interval r <= 4098)).
       { destruct HE as [HE|HE]; [left; exact HE|right; nia]. }
       destruct (yearly_step_c r rl k cnt s HN Y (conj Ay (conj Am (conj Ar (conj At Ac)))) Hyk Hyk1 HEk)
         as (acc' & cnt' & b & ET & Hf & Ht).
@@ -232,8 +232,8 @@ Qed.
 
 (* rrule_iter_correct for the family with COUNT *)
 Theorem yearly_iter_correct_c : forall r rl limit n,
-  normalize r = Ok rl -> yfam_c r -> 2 <= r_y r -> r_y r + Z.of_nat n * r_interval r <= 9999 ->
-  (r_byeaster r = None \/ (1583 <= r_y r /\ r_y r + Z.of_nat n * r_interval r <= 4099)) ->
+  normalize r = Ok rl -> yfam_c r -> 1 <= r_y r -> r_y r + Z.of_nat n * r_interval r <= 9999 ->
+  (r_byeaster r = None \/ (1583 <= r_y r /\ r_y r + Z.of_nat n * r_interval r <= 4098)) ->
   fst (iterate rl limit n) = fst (spec_iter r limit n).
 Proof.
   intros r rl limit n HN Y Hlo Hhi HE.
@@ -249,13 +249,14 @@ Proof.
       let H := fresh "W" in apply andb_true_iff in HW'; destruct HW' as [HW' H] end.
     unfold between in *. lia. }
   destruct Hwf as [Hitv Hwk].
-  assert (Hy0 : 2 <= r_y r <= 9999) by nia.
-  assert (HE0 : truthy (byeaster rl) = false \/ 1583 <= r_y r <= 4099).
+  assert (Hy0 : 1 <= r_y r <= 9999) by nia.
+  assert (HE0 : truthy (byeaster rl) = false \/ 1583 <= r_y r <= 4098).
   { destruct EC as [[Ea0 T0]|[Ea1 T1]]; [left; exact T0|right]. destruct HE as [HE|HE]; [congruence|]. nia. }
   destruct (rebuild_succeeds rl (r_y r) (r_m r) Hy0 ltac:(rewrite Nwk; exact Hwk) TN HE0) as (ii0 & R0).
   pose proof (timeset_is_spec r rl HN HW ltac:(rewrite Hfr; reflexivity)) as HT.
-  unfold iterate, init_state. rewrite Ny, Nm, Nd, R0. cbn [bind].
-  rewrite Nfr. change (YEARLY <? HOURLY) with true. cbv iota. rewrite HT. cbn [bind]. rewrite Nc.
+  unfold iterate, init_state. rewrite Nfr. change (YEARLY =? WEEKLY) with false. cbn [andb]. cbv iota.
+  rewrite Ny, Nm, Nd, R0. cbn [bind].
+  change (YEARLY <? HOURLY) with true. cbv iota. rewrite HT. cbn [bind]. rewrite Nc.
   unfold spec_iter.
   set (s0 := mkSt _ _ _ _ _ _ _ _ _ _ _).
   assert (A0 : at_pass_c r rl 0 (r_count r) s0).
